@@ -394,6 +394,9 @@ func genModel(r *rng, k genKnobs) *Model {
 		s.rel.Expr = e
 		s.rel.Direct = direct
 	}
+	if r.chance(6) {
+		applyDialect(r, m, inDSLGen)
+	}
 	return m
 }
 
